@@ -166,6 +166,8 @@ def c11_strata(tier: str) -> List[Stratum]:
     return [
         Stratum("sampled-minutes", scale(tier, 6000, 60000), lambda r, i: cg.gen_c11(r, False)),
         Stratum("all-minutes", scale(tier, 300, 20000), lambda r, i: cg.gen_c11(r, True)),
+        Stratum("ticking-clock", scale(tier, 3000, 200000), lambda r, i: cg.gen_c11(r, False, ticking=True),
+                note="the wall clock advances on every read, starting a few reads before a local midnight"),
     ]
 
 
